@@ -289,6 +289,10 @@ func (x *world) checkC01w(label string) {
 		}
 	}
 
+	if !x.checkAccountBalances(label, live, confsOf, maturity) {
+		return
+	}
+
 	// --- per account
 	for _, acct := range []uint32{0, 1} {
 		if acct == 1 && !x.haveAcct1 {
@@ -332,6 +336,50 @@ func (x *world) checkC01w(label string) {
 			env.Count("probe.c01w-account-balances-checked")
 		}
 	}
+}
+
+// checkAccountBalances: Wallet.AccountBalances(scope, confs) per default
+// scope — each account's sum of live credits paying one of its addresses, with
+// at least confs confirmations and coinbase maturity.
+func (x *world) checkAccountBalances(label string, live []knownOut, confsOf func(int32) int32, maturity int32) bool {
+	for _, sc := range scopes {
+		for _, m := range []int32{0, 1, maturity} {
+			want := map[uint32]btcutil.Amount{}
+			for _, o := range live {
+				idx, ok := x.byScript[string(o.pkScript)]
+				if !ok {
+					return true // a credit to an address the harness did not record: skip
+				}
+				is := x.issuedAddrs[idx]
+				if is.scope != sc {
+					continue
+				}
+				c := confsOf(o.height)
+				if c < m || (o.coinbase && c < maturity) {
+					continue
+				}
+				want[is.account] += btcutil.Amount(o.value)
+			}
+			res, err := x.w.AccountBalances(sc, m)
+			if err != nil {
+				x.fail("c01w:store-error:AccountBalances", "AccountBalances(%v,%d) failed: %v", sc, m, err)
+				return false
+			}
+			for _, r := range res {
+				if r.AccountNumber == waddrmgr.ImportedAddrAccount {
+					continue
+				}
+				if r.AccountBalance != want[r.AccountNumber] {
+					x.fail(fmt.Sprintf("c01w:account-balance:minconf=%s", confClass(m, maturity)),
+						"%s: AccountBalances(scope %v, %d) reports %v for account %d (%q), the known transactions give %v",
+						label, sc, m, r.AccountBalance, r.AccountNumber, r.AccountName, want[r.AccountNumber])
+					return false
+				}
+			}
+			x.env.Count("probe.c01w-scope-account-balances-checked")
+		}
+	}
+	return true
 }
 
 func confClass(m, maturity int32) string {
